@@ -207,6 +207,41 @@ def judge_inplace(acc, f, shape, cs, part):
               acc.outcome('inplace_ok')
 
 
+def judge_array_cfg(acc, f, shape, cs, part):
+    """numpy-function route with the operand's array_op_* configuration: results must land, exactly, in the configured destination"""
+    if 2 * f.n_word + 6 > 40:
+        return
+    for fn in ('sum', 'cumsum', 'max', 'sort', 'dot', 'prod' if len(cs) * f.n_word <= 24 else 'min'):
+        k = len(cs) if fn == 'prod' else 2
+        tf = Fmt(True, k * f.n_word + 12, max(f.n_frac, 0) * k + 3)        # wide and finer than the result: stores it exactly
+        for method in ('raw', 'repr'):
+            for dest in ('array_op_out_like', 'array_op_out'):
+                case = {'part': part, 'arraycfg': True, 'fmt': list(f), 'shape': list(shape), 'codes': list(cs), 'fn': fn, 'method': method, 'dest': dest}
+                acc.evaluations += 1
+                acc.transitions += 2
+                acc.nontrivial += 1
+                try:
+                    x = build(f, cs, tuple(shape), 'raw')
+                    ref = oracle(fn, {}, fr_array(f, cs, shape), f) if fn != 'dot' else np.dot(fr_array(f, cs, shape), fr_array(f, cs, shape).T if len(shape) == 2 else fr_array(f, cs, shape))
+                    eshape = tuple(np.shape(ref))
+                    t = Fxp(np.zeros(eshape) if eshape else 0.0, tf.signed, tf.n_word, tf.n_frac)
+                    x.config.array_op_method = method
+                    setattr(x.config, dest, t)
+                    z = getattr(np, fn)(x) if fn != 'dot' else np.dot(x, x.T if len(shape) == 2 else x)
+                    gv = exact_of(z)
+                except Exception as e:
+                    acc.violation('exception', case, 'np.%s with %s (%s) on %s%s raised %r' % (fn, dest, method, f.dtype, shape, e),
+                                  {'part': part, 'fn': fn, 'aspect': 'array_cfg'})
+                    continue
+                ev = np.asarray(ref, dtype=object).ravel().tolist() if eshape else [ref]
+                if gv != ev or fmt_of(z) != tf or (dest == 'array_op_out' and z is not t):
+                    acc.violation('array_cfg', case, 'np.%s(x) with config.%s = %s and array_op_method=%s on %s%s codes %s: %s values %s, exact %s'
+                                  % (fn, dest, tf.dtype, method, f.dtype, shape, list(cs), z.dtype, [str(v) for v in gv[:4]], [str(v) for v in ev[:4]]),
+                                  {'part': part, 'fn': fn, 'aspect': 'array_cfg'})
+                else:
+                    acc.outcome('array_cfg_ok')
+
+
 def judge_dot(acc, fxm, fym, sx, sy, xs, ys, fn, route, part):
     case = {'part': part, 'fx': list(fxm), 'fy': list(fym), 'sx': list(sx), 'sy': list(sy), 'xs': list(xs), 'ys': list(ys), 'fn': fn, 'route': route}
     acc.evaluations += 1
@@ -249,7 +284,7 @@ DOT_SHAPES = (((3,), (3,)), ((2,), (2,)), ((5,), (5,)), ((1, 3), (3, 1)), ((2, 3
 
 def bounds(tier, seed):
     return {'reductions': '12 shapes x %d formats (n_word in %s, n_frac {0,mid,n}, both signednesses) x fills (%s; patterns over {lo,hi,0,+-1}; seed '
-                          'extras) x sum, cumsum, prod, cumprod, max, min (axis None, each axis and each negative axis, numpy and method routes; f(x), in-place x[i]=v, f(x) again), sort, clip, transpose, T, '
+                          'extras) x sum, cumsum, prod, cumprod, max, min (axis None, each axis and each negative axis, numpy and method routes; f(x), in-place x[i]=v, f(x) again; numpy route with config.array_op_out / array_op_out_like and array_op_method raw / repr), sort, clip, transpose, T, '
                           'trace, diagonal (offset 0 and 1)' % (len(formats()), WORDS, 'every assignment of {lo,hi} for sizes <= 4, structured extreme '
                                                                 'patterns above' if tier == 'quick' else 'every assignment of {lo,hi} to the elements (2^size)'),
             'dot': '13 shape pairs x all ordered format pairs of the grid (mixed signedness) x extreme fills {all lo, all hi, lo/hi alternating, hi/lo} '
@@ -277,6 +312,7 @@ def run_shard(sh):
         fl = fills(f, size, sh['full'], sh['seed'])
         for cs in (fl[0], fl[-1], fl[-2]):
             judge_inplace(acc, f, shape, cs, 'R')
+            judge_array_cfg(acc, f, shape, cs, 'R')
         for cs in fl:
             res = {}
             for fn, route, kw in calls(shape):
@@ -312,6 +348,9 @@ def run_shard(sh):
 def replay(case):
     reset_class_state()
     acc = Acc()
+    if case.get('arraycfg'):
+        judge_array_cfg(acc, Fmt(*case['fmt']), tuple(case['shape']), case['codes'], case['part'])
+        return [v for v in acc.violations if v['case'].get('fn') == case['fn'] and v['case'].get('method') == case['method'] and v['case'].get('dest') == case['dest']]
     if case.get('inplace'):
         judge_inplace(acc, Fmt(*case['fmt']), tuple(case['shape']), case['codes'], case['part'])
         return [v for v in acc.violations if v['case'].get('fn') == case['fn']]
